@@ -32,6 +32,7 @@ def run(ctx):
     rep.rule("C07.R2", "attribute resolution / callable misuse / helper arity under E_pot", 8)
     rep.rule("C07.R3", "energy atoms are covered by the generalized force", 3)
     rep.rule("C07.R4", "compliance form provides the full protocol from the same accessors", 4)
+    _seen.clear()
     sm = sysmodel.SystemModel(ctx)
     sysmodel.codefinition(ctx, sm, "C07.R1", family=lambda p, m: m == "E_pot", require_live=False)
     model = ctx.model
